@@ -435,6 +435,14 @@ fn tune(prop: &str, c: &mut Cfg, p: &mut GenProfile, r: &mut Rng) {
                     c.s_tam = Some(*r.pick(&[1u16, 2, 3]));
                 }
             }
+            if c.as_client && r.chance(1, 12) {
+                // a broker that accepts nothing larger than a PINGREQ
+                c.s_mps = Some(*r.pick(&[2u32, 3]));
+                c.ka = *r.pick(&[5u16, 10]);
+                c.pingresp_to_ms = 3000;
+                p.w_timer = 12;
+                p.w_ping = 10;
+            }
             p.w_pub = 45;
             p.w_peerpub = 25;
             p.w_disc = 3;
@@ -444,6 +452,11 @@ fn tune(prop: &str, c: &mut Cfg, p: &mut GenProfile, r: &mut Rng) {
                 let l = [None, Some(16u32), Some(20), Some(40)];
                 c.c_mps = *r.pick(&l);
                 c.s_mps = *r.pick(&l);
+            }
+            if c.wire_v == 5 && c.as_client && r.chance(1, 10) {
+                // a broker that accepts nothing larger than a PINGREQ: not even the library's own
+                // DISCONNECT fits
+                c.s_mps = Some(*r.pick(&[2u32, 3]));
             }
             c.ka = *r.pick(&[0u16, 5, 10, 60]);
             c.pingresp_to_ms = *r.pick(&[0u64, 3000]);
@@ -574,7 +587,8 @@ fn generate_inner(prop: &str, rng: &mut Rng, tier: Tier, run: u64) -> (Case, Out
         s.exec(&Op::ExhaustIds);
     }
     // C05: adversarial peer traffic at PRNG points of an otherwise regular session
-    let adversary = prop == "C05" && run % 3 != 0;
+    // (C15 / C19 speak about every event list, those of the error paths included)
+    let adversary = (prop == "C05" && run % 3 != 0) || ((prop == "C19" || prop == "C15") && run % 4 == 1);
     for _ in 0..len {
         let mut op = solo::gen_op(&s, rng, &prof);
         if adversary && s.w.m.st != St::Disc && !s.w.want_close && rng.chance(1, 6) {
@@ -745,6 +759,18 @@ fn fork_outcome(kind: ForkKind, cfg: &Cfg, ops: &[Op], cont: &[Op], mangle: Expo
             let mut ha = ops.to_vec();
             ha.push(Op::Close { partial: 0 });
             (cfg.clone(), cfg.clone(), ha, vec![])
+        }
+        ForkKind::Version if !ops.is_empty() => {
+            // both servers take over a session exported by a crashed predecessor before they see
+            // their first CONNECT; the undetermined one must go on like the fixed one
+            if !(matches!(cont.first(), Some(Op::Connect { clean: false })) && matches!(cont.get(1), Some(Op::Connack { rc: 0, .. }))) {
+                return Outcome::default();
+            }
+            let mut ca = cfg.clone();
+            ca.ver = Ver::Undet;
+            let mut cb = cfg.clone();
+            cb.ver = if cfg.wire_v == 4 { Ver::V4 } else { Ver::V5 };
+            (ca, cb, ops.to_vec(), ops.to_vec())
         }
         ForkKind::Version => {
             // "adopts v3.1.1 or v5.0 from the first CONNECT ... and from then on behaves exactly
@@ -1141,6 +1167,26 @@ fn gen_c17(rng: &mut Rng, tier: Tier, run: u64) -> (Case, Outcome) {
     }
     if ops.is_empty() {
         return (Case::Fork { kind: ForkKind::Version, cfg, ops: vec![], cont: ops, mangle: ExportMangle::None }, o);
+    }
+    if run % 4 == 3 && !s.w.lenient && s.w.m.persistent {
+        // the history so far is the life of a crashed predecessor; its export is restored into
+        // both servers before their first CONNECT
+        let mut hist = ops.clone();
+        hist.retain(|o| !matches!(o, Op::Drain | Op::Crash));
+        let mut cont = vec![Op::Connect { clean: false }, Op::Connack { sp: true, rc: 0 }];
+        for id in s.peer_q2.clone() {
+            cont.push(Op::PeerPub { qos: 2, id, dup: true, topic: 0, alias: 0, pad: 0 });
+        }
+        cont.push(Op::Drain);
+        let fo = fork_outcome(ForkKind::Version, &cfg, &hist, &cont, ExportMangle::None);
+        merge_o(&mut o, &fo);
+        o.nontrivial = true;
+        o.stats.hit("c17_version_twin_restored_session");
+        if fo.viol.is_some() {
+            o.viol = fo.viol.clone();
+            o.log = fo.log.clone();
+        }
+        return (Case::Fork { kind: ForkKind::Version, cfg, ops: hist, cont, mangle: ExportMangle::None }, o);
     }
     o.nontrivial = s.w.stats.frames >= 2;
     let fo = fork_outcome(ForkKind::Version, &cfg, &[], &ops, ExportMangle::None);
